@@ -433,7 +433,7 @@ class StmtMixin:
             try:
                 if isinstance(lv, ast.Name):
                     obj = self.ev(lv, fr)
-                    if lv.id in lc.locals and isinstance(obj, (PyList,)):
+                    if lv.id in lc.locals and not isinstance(obj, (VBox, VStruct)):
                         fr.env[lv.id] = self.sym_of_sort(lc.locals[lv.id], lv.id, fr)
                         continue
                     if isinstance(obj, (VBox, VStruct)):
